@@ -428,12 +428,21 @@ def expected_refusal(op, pre):
     if k == 'pfwd':
         return 'ValueError' if op[2] < pf[op[1]]['clock'] or op[3] < 0 or op[3] > pf[op[1]]['cash'] else None
     if k == 'pfmark':
-        held = any(q['asset'] == op[2] for q in pf[op[1]]['positions'])
-        if held and (op[3] < 0 or op[4] < pf[op[1]]['clock']):
+        pos = [q for q in pf[op[1]]['positions'] if q['asset'] == op[2]]
+        if pos and (op[3] < 0 or op[4] < pf[op[1]]['clock']):
+            return 'ValueError'
+        # the holding's own validation (Position.update_current_price): a positive price, not earlier than the holding's clock
+        if pos and (op[3] <= 0 or op[4] < pos[0]['clock']):
             return 'ValueError'
         return None
     if k == 'pftxn':
-        return 'ValueError' if op[4] < pf[op[1]]['clock'] else None
+        if op[4] < pf[op[1]]['clock']:
+            return 'ValueError'
+        pos = [q for q in pf[op[1]]['positions'] if q['asset'] == op[2]]
+        # a fill into an existing holding is validated by the holding (Position.transact): positive price, not earlier than its clock
+        if pos and op[3] != 0 and (op[5] <= 0 or op[4] < pos[0]['clock']):
+            return 'ValueError'
+        return None
     if k == 'q':
         what, arg = op[1], op[2]
         if what == 'cash':
